@@ -1,2 +1,3 @@
 import Arp.Props.C08Load
+import Arp.Props.C08ToI64
 /-! # C08 — integer conversions (loads in `C08Load.lean`, `to_i64` in `C08ToI64.lean`) -/
